@@ -60,64 +60,68 @@ def check_address_free(P, ctx, Ppos):
     ctx.floor(rule, 12)
 
 
+class HashRefuted(Exception):
+    pass
+
+
 def check_hash_data(P, ctx):
+    """hash_data is a function of the size(type) bytes of the value alone: evaluated (cint, exact integer semantics) on byte strings of
+    0..24 bytes (values from 0x00 to 0xff) placed at a word-aligned and at an odd address.  Every read must fall inside the value, and
+    the same bytes must hash the same at both addresses (alignment-dependent paths, bytes read through a signed type on one path only,
+    and anything else that lets the address into the result show up as a difference)."""
+    from . import cint
     rule = 'C10.byte-hash'
     fn = P.fn('hash_data')
-    g = P.cfg(fn)
     ctx.fn(fn)
-    ltypes = util.local_decl_types(fn)
-    # every byte is read through an unsigned byte pointer (or copied with memcpy): no sign extension
-    bad = []
-    n_reads = 0
-    for e, ln in ir.all_exprs(fn['body']):
-        for x in ir.walk(e):
-            base = None
-            if x[0] == 'idx':
-                base = ir.top_nocast(x[1])
-            elif x[0] == 'un' and x[1] == '*':
-                base = ir.top_nocast(x[2])
-            if base is None or base[0] != 'local':
+    bad = {'inside-the-value': None, 'address-independent': None}
+    unsup = None
+    ncase = 0
+    for size in list(range(0, 18)) + [23, 24]:
+        data = [((i * 37 + 0x85) ^ (i << 3)) & 0xff for i in range(size)]
+        res = []
+        for base in (80000, 80003):
+            def rd(a, width, base=base, size=size, data=data):
+                if width is None:
+                    raise cint.NoEval('read of unknown width')
+                if a < base or a + width > base + size:
+                    raise HashRefuted('%d bytes of input: reads %d byte(s) at offset %d' % (size, width, a - base))
+                return sum(data[a - base + j] << (8 * j) for j in range(width))
+
+            def mem(a, it, rd=rd):
+                return rd(a, it.mem_width)
+
+            def call(nm, e, it, rd=rd):
+                if nm == 'memcpy':
+                    dst = ir.top_nocast(e[2][0])
+                    n = it.ev(e[2][2])
+                    src = it.ev(e[2][1])
+                    if dst[0] == 'un' and dst[1] == '&' and isinstance(src, int):
+                        it.store(dst[2], rd(src, n))
+                        return 0
+                raise cint.NoEval('call %s' % nm)
+            it = cint.CInt(P, fn, call=call, mem=mem, max_steps=6000)
+            try:
+                r = it.run([base, size])
+            except HashRefuted as x:
+                bad['inside-the-value'] = bad['inside-the-value'] or str(x)
+                res.append(None)
                 continue
-            t = ltypes.get(base[2], '')
-            if '*' not in t:
+            ncase += 1
+            if r[0] != 'ret' or not isinstance(r[1], int):
+                unsup = '%s at %s' % (r[1], P.cfg(fn).describe(r[2]))
+                res.append(None)
                 continue
-            n_reads += 1
-            elem = t.replace('const', '').replace('*', '').strip()
-            if elem in ('char', 'signed char', 'short', 'int', 'long'):
-                bad.append((ln, 'bytes read through `%s`: values >= 0x80 are sign-extended when widened' % t))
-    ctx.check(not bad and n_reads >= 7, rule, 'unsigned-bytes', site(fn), 'input bytes are read as unsigned bytes (or copied whole with memcpy) before being widened and mixed', [b[1] for b in bad[:2]])
-    # block loop covers size & ~7 bytes in steps of 8, tail switch covers size & 7 with one case per remaining byte
-    N = util.Norm(P, fn, expand_locals=True)
-    mc = [(n, c) for n in g.live() if n['expr'] is not None for c in ir.calls(n['expr']) if ir.callee_name(c) == 'memcpy']
-    ok = len(mc) == 1 and util.const_int(ir.canon(mc[0][1][2][2])) == 8 or (len(mc) == 1 and ir.canon(mc[0][1][2][2]) == ('sizeof', ('type', 'unsigned long')))
-    sw = [n for n in g.live() if n['kind'] == 'switch']
-    ok2 = len(sw) == 1
-    if ok2:
-        e = N.canon(sw[0]['expr'])
-        ok2 = e == ir.canon(('bin', '&', ('param', 'size', 1), ('int', 7)))
-        cases = sorted(util.const_int(l[1]) for (v, l) in sw[0]['succ'] if isinstance(l, tuple))
-        ok2 = ok2 and cases == [1, 2, 3, 4, 5, 6, 7]
-        # each case k mixes byte k-1 shifted by 8*(k-1)
-        for (v, l) in sw[0]['succ']:
-            if not isinstance(l, tuple):
-                continue
-            k = util.const_int(l[1])
-            n = g.nodes[v]
-            while n['kind'] == 'join':
-                n = g.nodes[n['succ'][0][0]]
-            e = ir.canon(n['expr']) if n['expr'] is not None else None
-            good = False
-            if e is not None and e[0] == 'assign' and e[1] == '^=':
-                idxs = [util.const_int(x[2]) for x in ir.walk(e[3]) if x[0] == 'idx']
-                sh = [util.const_int(x[3]) for x in ir.walk(e[3]) if x[0] == 'bin' and x[1] == '<<']
-                good = idxs == [k - 1] and (sh == [8 * (k - 1)] or (k == 1 and not sh))
-            ok2 = ok2 and good
-    end = [n for n in g.live() if n.get('decl') and n['decl']['name'] == 'end']
-    ok3 = len(end) == 1 and N.canon(end[0]['decl']['init']) is not None
-    if ok3:
-        p = ir.canon(end[0]['decl']['init'])
-        ok3 = util.mentions(p, lambda y: y == ('un', '~', ('int', 7))) or util.mentions(p, lambda y: y[0] == 'un' and y[1] == '~')
-    ctx.check(ok and ok2 and ok3, rule, 'coverage', site(fn), 'the block loop consumes the first size & ~7 bytes eight at a time (memcpy into a word), the tail switch mixes byte k-1 at shift 8(k-1) for each of the remaining size & 7 bytes')
+            res.append(r[1])
+        if len(res) == 2 and None not in res and res[0] != res[1]:
+            bad['address-independent'] = bad['address-independent'] or '%d bytes of input hash to %#x at a word-aligned address and to %#x at an odd one' % (size, res[0], res[1])
+    ctx.stats['paths'] += ncase
+    if unsup and not any(bad.values()):
+        ctx.undecided(rule, 'evaluation', site(fn), 'hash_data leaves the evaluated fragment: ' + unsup)
+    else:
+        ctx.check(bad['inside-the-value'] is None, rule, 'inside-the-value', site(fn), 'every byte hash_data reads lies inside the size bytes it was given (sizes 0..17, 23, 24)',
+                  [bad['inside-the-value']] if bad['inside-the-value'] else None)
+        ctx.check(bad['address-independent'] is None, rule, 'address-independent', site(fn), 'the same bytes hash the same at a word-aligned and at an odd address (%d evaluations)' % ncase,
+                  [bad['address-independent']] if bad['address-independent'] else None)
     ctx.floor(rule, 2)
 
 
@@ -215,29 +219,51 @@ def traversal_full(P, fn, g, N, T, upd):
 
 def check_defaults(P, ctx):
     rule = 'C10.copy-default'
-    # assign: byte-wise only for equal types of non-zero size; all size bytes; else TypeError
+    # assign / swap without an own instance: byte-wise over all size bytes only for equal types of non-zero size; else TypeError (evaluated)
+    from . import cint
     for fname, lib in (('assign', 'memcpy'), ('swap', 'memswap')):
         fn = P.fn(fname)
-        g = P.cfg(fn)
         ctx.fn(fn)
-        N = util.Norm(P, fn, expand_locals=True, keep={'type_of', 'size', 'instance'})
-        mc = [(n, c) for n in g.live() if n['expr'] is not None for c in ir.calls(n['expr']) if ir.callee_name(c) == lib]
-        ok = len(mc) == 1
-        if ok:
-            n, c = mc[0]
-            args = [N.canon(a) for a in c[2]]
-            szc = ir.canon(('call', ('func', 'size'), (('call', ('func', 'type_of'), (('param', 'self', 0),)),)))
-            ok = args == [('param', 0), ('param', 1), szc]
-            teq = [x for x in g.live() if x['kind'] == 'cond' and N.canon(x['expr']) == ir.canon(('bin', '==', ('call', ('func', 'type_of'), (('param', 'self', 0),)), ('call', ('func', 'type_of'), (('param', 'obj', 1),))))]
-            nz = [x for x in g.live() if x['kind'] == 'cond' and N.canon(x['expr']) == szc]
-            ok = ok and len(teq) == 1 and len(nz) == 1 and g.must_pass(n['id'], through_edges=[(teq[0]['id'], True)]) and g.must_pass(n['id'], through_edges=[(nz[0]['id'], True)])
-            for x in (teq[0], nz[0]) if ok else ():
-                fb = succ_of(x, False)
-                ok = ok and throw_only(g, fb) and {g.nodes[i]['why'][1] for i in g.reach_from(fb) if g.nodes[i]['kind'] == 'term'} == {'TypeError'}
-        ctx.check(ok, rule, fname + ':bytewise', site(fn), 'without an own instance, %s works byte-wise over all size(type) bytes of (self, obj) only for equal types of non-zero size, else TypeError' % fname)
+        bad, unsup = None, None
+        SELF_, OBJ = 5000, 6000
+        for same in (1, 0):
+            for sz in (0, 8, 24):
+                for inst in (0, 1):          # an instance whose member is empty counts as no own instance
+                    events = []
+
+                    def call(nm, e, it, same=same, sz=sz, inst=inst, events=events):
+                        if nm == 'instance':
+                            return ('ep', 'inst', 0) if inst else 0
+                        if nm == 'type_of':
+                            v = it.ev(e[2][0])
+                            return 8500 if (v == SELF_ or same) else 8600
+                        if nm == 'size':
+                            return sz if it.ev(e[2][0]) == 8500 else sz + 8
+                        if nm == lib:
+                            events.append([it.ev(x) for x in e[2]])
+                            return it.ev(e[2][0])
+                        raise cint.NoEval('call %s' % nm)
+                    atoms = {('global', 'NULL'): 0, ('elem', 'inst', 0, 'assign'): 0, ('elem', 'inst', 0, 'swap'): 0}
+                    r = cint.CInt(P, fn, atoms=atoms, call=call, N=util.Norm(P, fn, expand_locals=False, inline=False)).run([SELF_, OBJ])
+                    label = '%s types, size %d' % ('equal' if same else 'different', sz)
+                    if r[0] == 'stuck':
+                        unsup = '%s: %s' % (label, r[1])
+                        continue
+                    if same and sz:
+                        good = r[0] == 'ret' and events == [[SELF_, OBJ, sz]] and (fname == 'swap' or r[1] == SELF_)
+                    else:
+                        good = r[0] == 'term' and r[1] == ('throw', 'TypeError') and not events
+                    if not good and bad is None:
+                        bad = '%s: %s; %s' % (label, ('%s%s' % (lib, tuple(events[0]))) if events else 'no %s' % lib,
+                                              'returns %s' % (r[1],) if r[0] == 'ret' else 'raises %s' % (r[1][1] if isinstance(r[1], tuple) else r[1]))
+        if unsup and not bad:
+            ctx.undecided(rule, fname + ':bytewise', site(fn), 'leaves the evaluated fragment: ' + unsup)
+        else:
+            ctx.check(bad is None, rule, fname + ':bytewise', site(fn), 'without an own instance, %s works byte-wise over all size(type) bytes of (self, obj) only for equal types of non-zero size, else TypeError' % fname,
+                      [bad] if bad else None)
     fn = P.fn('copy')
     g = P.cfg(fn)
-    N = util.Norm(P, fn, keep={'alloc', 'type_of', 'assign'})
+    N = util.Norm(P, fn, expand_locals=True, keep={'alloc', 'type_of', 'assign'})
     rets = [n for n in g.live() if n['kind'] == 'ret']
     want_e = ir.canon(('call', ('func', 'assign'), (('call', ('func', 'alloc'), (('call', ('func', 'type_of'), (('param', 'self', 0),)),)), ('param', 'self', 0))))
     ctx.check(any(N.canon(n['expr']) == want_e for n in rets), rule, 'copy', site(fn), 'the default copy is assign(alloc(type_of(self)), self)')
@@ -254,98 +280,52 @@ def check_defaults(P, ctx):
 
 
 def check_memswap(P, ctx):
-    """memswap exchanges every byte of [0, s): the byte sets touched by its loop(s) are evaluated for s = 0..40"""
+    """memswap exchanges exactly the bytes [0, s) of its two operands: evaluated (cint) on byte memory for s = 0..40"""
+    from . import cint
     rule = 'C10.swap-exchanges'
     fn = P.fn('memswap')
-    g = P.cfg(fn)
     ctx.fn(fn)
-    N = util.Norm(P, fn, expand_locals=True)
-    ltypes = util.local_decl_types(fn)
-    conds = [x for x in g.live() if x['kind'] == 'cond' and loops.counted_loop(g, None, x) is not None]
-    sp = ('param', fn['params'][2][0], 2)
-    bad = None
-    loops_found = []
-    for c in conds:
-        lp = loops.counted_loop(g, None, c)
-        body = g.reach_from(succ_of(c, True), cut_nodes=[c['id']])
-        stores = []
-        for i in body:
-            n = g.nodes[i]
-            if n['expr'] is None:
-                continue
-            for ev in util.expr_events(n['expr'], n):
-                if ev['t'] == 'write' and ir.top_nocast(ev['lhs'])[0] == 'idx':
-                    stores.append((n, ev))
-        if not stores:
-            continue
-        loops_found.append((lp, stores))
-    if not loops_found:
-        ctx.undecided(rule, 'memswap', site(fn), 'no exchanging loop found')
-        return
+    bad, unsup, ncase = None, None, 0
+    P0, P1 = 10000, 20000
+    for sz in range(0, 41):
+        for p0, p1 in ((P0, P1), (P0, P0)):
+            memory = {}
+            for i in range(-8, sz + 8):
+                memory[P0 + i] = (i * 7 + 3) & 0xff
+                memory[P1 + i] = (i * 11 + 0x90) & 0xff
+            before = dict(memory)
 
-    def width(idx_lhs):
-        b = idx_lhs[1]
-        t = None
-        while b[0] in ('cast', 'icast'):
-            t = b[1]
-            b = b[2]
-        if t is None and b[0] == 'local':
-            t = ltypes.get(b[2])
-        if t is None:
-            return None, None
-        elem = t.replace('const', '').replace('*', '').strip()
-        w = poly.SIZEOF.get(elem, 8 if elem in ('uint64_t', 'unsigned long') else None)
-        return w, ir.nocast(b)
-    for s in range(0, 41):
-        covered = {0: [], 1: []}
-        for lp, stores in loops_found:
-            try:
-                its = loops.iterate(lp, {sp: s}, limit=64)
-            except NoEval as e:
-                bad = bad or 'loop header not evaluable for size %d: %s' % (s, e)
-                its = []
-            for iv in its:
-                for n, ev in stores:
-                    lhs = ir.noicast(ev['lhs'])
-                    w, base = width(ir.top_nocast(ev['lhs']) if ir.top_nocast(ev['lhs'])[0] == 'idx' else lhs)
-                    if w is None:
-                        bad = bad or 'element width of %s unknown' % ir.fmt(ev['lhs'])
-                        continue
-                    which = 0 if util.mentions(base, lambda y: y[0] == 'param' and y[2] == 0) or (base[0] == 'local' and util.mentions(N.canon(base), lambda y: y == ('param', 0))) else 1
-                    try:
-                        ix = loops.ev(ir.top_nocast(ev['lhs'])[2], {lp['iv']: iv, sp: s})
-                        off = 0
-                        if base[0] == 'bin':
-                            off = loops.ev(base[3], {lp['iv']: iv, sp: s}) * 1
-                    except NoEval as e:
-                        bad = bad or 'index not evaluable: %s' % e
-                        continue
-                    covered[which].extend(range(off + ix * w, off + ix * w + w))
-        for which in (0, 1):
-            if sorted(covered[which]) != list(range(s)) and bad is None:
-                missing = sorted(set(range(s)) - set(covered[which]))
-                extra = sorted(set(covered[which]) - set(range(s)))
-                dup = len(covered[which]) != len(set(covered[which]))
-                bad = 'for size %d the bytes written in operand %d are %s: %s' % (s, which, 'not exactly 0..%d' % (s - 1),
-                                                                               ('bytes %s are never exchanged' % missing[:8]) if missing else ('bytes %s outside the object' % extra[:8]) if extra else 'some byte is exchanged twice' if dup else '')
-    # exchange pattern: a temporary takes p0[i], p0[i] takes p1[i], p1[i] takes the temporary
-    lp, stores = loops_found[0]
-    ctx.check(bad is None, rule, 'memswap:coverage', site(fn), 'every byte index of [0, size) is written exactly once in each operand, for every size 0..40', [bad] if bad else None)
-    same = [x for x in g.live() if x['kind'] == 'cond' and N.canon(x['expr']) == ir.canon(('bin', '==', ('param', 'p0', 0), ('param', 'p1', 1)))]
-    ok = True
-    N2 = util.Norm(P, fn, expand_locals=False)      # the temporary is a snapshot: it must not be expanded to its initialiser
-    for lp, stores in loops_found:
-        st = [(ir.fmt(ir.nocast(N2.canon(ev['lhs']))), ir.fmt(ir.nocast(N2.canon(ev['rhs']))) if ev['rhs'] is not None else None) for n, ev in stores]
-        tmps = [n['decl'] for i in g.reach_from(succ_of(lp['cond_node'], True), cut_nodes=[lp['cond_node']['id']]) for n in [g.nodes[i]] if n.get('decl')]
-        if len(st) != 2 or len(tmps) != 1:
-            ok = False
-            continue
-        tinit = ir.fmt(ir.nocast(N2.canon(tmps[0]['init'])))
-        a_l, a_r = st[0]
-        b_l, b_r = st[1]
-        ok = ok and tinit == a_l and a_r == b_l and b_r == tmps[0]['name']
-    ctx.check(ok, rule, 'memswap:exchange', site(fn), 'each step is a true exchange through a temporary (t = a; a = b; b = t)')
-    ctx.floor(rule, 2)
+            def mem(a, it, memory=memory):
+                w = it.mem_width
+                if w is None or any(a + j not in memory for j in range(w)):
+                    raise cint.NoEval('read of %s byte(s) at %s' % (w, a))
+                return sum(memory[a + j] << (8 * j) for j in range(w))
+
+            def memw(a, v, w, it, memory=memory):
+                if w is None or not isinstance(v, int) or any(a + j not in memory for j in range(w)):
+                    raise cint.NoEval('store of %s byte(s) at %s' % (w, a))
+                for j in range(w):
+                    memory[a + j] = (v >> (8 * j)) & 0xff
+            r = cint.CInt(P, fn, mem=mem, memw=memw, max_steps=4000).run([p0, p1, sz])
+            ncase += 1
+            if r[0] != 'ret':
+                unsup = 'size %d: %s' % (sz, r[1])
+                continue
+            want = dict(before)
+            if p0 != p1:
+                for i in range(sz):
+                    want[P0 + i], want[P1 + i] = before[P1 + i], before[P0 + i]
+            if memory != want and bad is None:
+                diff = sorted(a_ for a_ in memory if memory[a_] != want[a_])
+                where = ['operand %d byte %d' % (0 if abs(a_ - P0) < 1000 else 1, a_ - (P0 if abs(a_ - P0) < 1000 else P1)) for a_ in diff[:4]]
+                bad = 'size %d%s: after the call %s do(es) not hold the other operand\'s byte (bytes outside [0, size) must stay)' % (sz, ', both operands the same object' if p0 == p1 else '', ', '.join(where))
+    ctx.stats['paths'] += ncase
+    if unsup and not bad:
+        ctx.undecided(rule, 'memswap', site(fn), 'memswap leaves the evaluated fragment: ' + unsup)
+    else:
+        ctx.check(bad is None, rule, 'memswap', site(fn), 'for every size 0..40 the bytes [0, size) of the two operands are exchanged and nothing else is written (%d evaluations)' % ncase,
+                  [bad] if bad else None)
+    ctx.floor(rule, 1)
 
 
 def run(ctx, load):
